@@ -89,6 +89,14 @@ func streamFaults(cfg *Config, res *Result) error {
 	g := HistGen{Layering: "disjoint", NSteps: 4, Rollbacks: 1}
 	for i := 0; i < nCases; i++ {
 		c := genHistCase(r, g, umask)
+		if cfg.Prop == "C08" {
+			// deep creations: several missing levels below an existing directory whose copy can fail
+			for k := range c.Steps {
+				if op := c.Steps[k].Op; op != nil && (op.K == "mkdirall" || op.K == "mkdir") && r.Chance(1, 2) {
+					c.Steps[k].Op = &Op{"mkdirall", []string{op.A[0] + "/" + r.Pick(namePool) + "n/" + r.Pick(namePool), op.A[1]}}
+				}
+			}
+		}
 		if cfg.Prop == "C08" && r.Chance(1, 2) {
 			// every operation is retried once: a failed backup must not leave anything behind that
 			// lets the retry through without a copy ("the failure does not corrupt the transaction")
